@@ -6,6 +6,7 @@
 import TaRs.Lemmas.Core.SimpleMovingAverage
 import TaRs.Gen.SimpleMovingAverage
 import TaRs.Lemmas.RsLemmas
+import TaRs.Lemmas.Total.SimpleMovingAverage
 namespace TaRs.Gen.SimpleMovingAverage
 open TaRs TaRs.Rs
 
@@ -32,18 +33,5 @@ theorem next_eq (s : SimpleMovingAverage F) (x v : F) (h : WF s) (hv : s.deque[s
   try simp only [gen_helper]
   rs_exec
   all_goals (first | omega | (subst hv; rfl))
-
-/-- `next` never panics on a well-formed state, keeps it well-formed and keeps the period -/
-theorem next_total (s : SimpleMovingAverage F) (x : F) (h : WF s) :
-    ∃ r, s.next x = some r ∧ WF r.1 ∧ r.1.period = s.period := by
-  have hix : s.index < s.deque.size := by have := h.size; have := h.idx; omega
-  refine ⟨_, next_eq s x _ h (Array.getElem?_eq_getElem hix), ?_, rfl⟩
-  obtain ⟨hp, hs, hsz, hi, hc⟩ := h
-  constructor <;> simp only [Array.size_setIfInBounds] <;> (try split) <;> omega
-
-theorem nextBar_eq (s : SimpleMovingAverage F) (b : Bar F) : s.nextBar b = s.next b.close := by
-  unfold nextBar
-  try simp only [gen_helper]
-  cases h : s.next b.close <;> simp [h]
 
 end TaRs.Gen.SimpleMovingAverage
